@@ -12,20 +12,21 @@ void print_i64(int64_t value) {
   char *start = &buf[MAX_DIGITS_INT];
 
   bool negative = false;
+  uint64_t magnitude = (uint64_t)value;
 
   if (value < 0) {
     negative = true;
-    value = -value;
+    magnitude = 0 - (uint64_t)value;
   }
 
-  int64_t prev_value;
+  uint64_t prev_value;
 
   do {
-    prev_value = value;
-    value /= 10;
+    prev_value = magnitude;
+    magnitude /= 10;
     start--;
-    *start = '0' + (prev_value - value * 10);
-  } while (value);
+    *start = '0' + (prev_value - magnitude * 10);
+  } while (magnitude);
 
   if (negative) {
     start--;
@@ -41,20 +42,21 @@ void println_i64(int64_t value) {
   *start = '\n';
 
   bool negative = false;
+  uint64_t magnitude = (uint64_t)value;
 
   if (value < 0) {
     negative = true;
-    value = -value;
+    magnitude = 0 - (uint64_t)value;
   }
 
-  int64_t prev_value;
+  uint64_t prev_value;
 
   do {
-    prev_value = value;
-    value /= 10;
+    prev_value = magnitude;
+    magnitude /= 10;
     start--;
-    *start = '0' + (prev_value - value * 10);
-  } while (value);
+    *start = '0' + (prev_value - magnitude * 10);
+  } while (magnitude);
 
   if (negative) {
     start--;
